@@ -59,6 +59,8 @@ class Sched:
         """horizon: virtual seconds the main logical thread may stay in an UNTIMED wait before Horizon is raised in it."""
         schedule = schedule or {}
         self.main_blocked_at = 0.0
+        self.spin = 0
+        self.last_choice = None
         self.prefix = list(schedule.get('prefix', []))
         self.rng = random.Random(schedule.get('seed', 0))
         self.rate = float(schedule.get('rate', 0.0))
@@ -94,6 +96,13 @@ class Sched:
             c = 0
         if me in ready:
             if c == 0:
+                # fairness guard: a thread spinning without ever blocking must not starve the others for ever
+                self.spin = self.spin + 1 if self.last_choice is me else 0
+                self.last_choice = me
+                if self.spin > 500:
+                    self.spin = 0
+                    others = [t for t in ready if t is not me]
+                    return others[0]
                 return me
             others = [t for t in ready if t is not me]
             self.preemptions += 1
